@@ -27,7 +27,11 @@ pub enum Prop {
 pub enum PkSource {
 	KeyPair,
 	Spki,
+	/// the public key comes out of a parsed CSR, issuance through `CertificateParams::signed_by`
 	Csr,
+	/// issuance through `CertificateSigningRequestParams::signed_by` (the parsed request's `params`
+	/// replaced by the case's parameters)
+	CsrIssue,
 }
 
 pub struct Issuer<'a> {
@@ -139,12 +143,35 @@ pub fn build(case: &CertCase<'_>) -> Outcome {
 					.signed_by(&parsed.public_key, &iss.cert, &iss.key.kp)
 					.map_err(|e| e.to_string())
 			},
+			(Some(iss), PkSource::CsrIssue) => issue_via_csr(params, &case.subject_key.kp, &iss.cert, &iss.key.kp),
 		}
 	});
 	match r {
 		Err(p) => Outcome::Panic(p),
 		Ok(Err(e)) => Outcome::Err(e),
 		Ok(Ok(c)) => Outcome::Ok(c, input),
+	}
+}
+
+/// The third issuance route: a request made by the subject key is parsed, its `params` are replaced
+/// by `params`, and the certificate is issued with `CertificateSigningRequestParams::signed_by`.
+pub fn issue_via_csr(params: CertificateParams, subject: &rcgen::KeyPair, issuer: &Certificate, issuer_key: &rcgen::KeyPair) -> Result<Certificate, String> {
+	let csr = CertificateParams::default().serialize_request(subject).map_err(|e| format!("serialize_request failed: {}", e))?;
+	let mut parsed = CertificateSigningRequestParams::from_der(csr.der()).map_err(|e| format!("parsing our own CSR failed: {}", e))?;
+	parsed.params = params;
+	parsed.signed_by(issuer, issuer_key).map_err(|e| e.to_string())
+}
+
+/// Issue through one of the three routes (0 key pair, 1 SubjectPublicKeyInfo, 2 CSR); routes that
+/// cannot apply to this subject key (remote key, P-521 request: known finding of C07) fall back to 0.
+pub fn issue_via(route: u64, params: CertificateParams, subject: &PoolKey, issuer: &Certificate, issuer_key: &rcgen::KeyPair) -> Result<Certificate, String> {
+	match route % 3 {
+		1 => {
+			let spki = SubjectPublicKeyInfo::from_der(&subject.kp.public_key_der()).map_err(|e| format!("SubjectPublicKeyInfo::from_der of our own key failed: {}", e))?;
+			params.signed_by(&spki, issuer, issuer_key).map_err(|e| e.to_string())
+		},
+		2 if !subject.is_remote() && subject.sig != SigAlg::EcdsaSha512 => issue_via_csr(params, &subject.kp, issuer, issuer_key),
+		_ => params.signed_by(&subject.kp, issuer, issuer_key).map_err(|e| e.to_string()),
 	}
 }
 
@@ -716,10 +743,11 @@ fn pick_case<'a>(w: &Workload<'a>, id: CaseId, spec: ParamSpec, rng: &mut Rng, a
 		}
 	}
 	let issuer = if rng.chance(1, 2) { Some(rng.pick(w.issuers)) } else { None };
-	let source = match (issuer.is_some(), rng.below(4)) {
+	let source = match (issuer.is_some(), rng.below(5)) {
 		(true, 0) => PkSource::Spki,
 		// P-521 requests cannot be parsed back by rcgen (known finding of C07): use the SPKI route there
 		(true, 1) if !subject_key.is_remote() && subject_key.sig != SigAlg::EcdsaSha512 => PkSource::Csr,
+		(true, 2) if !subject_key.is_remote() && subject_key.sig != SigAlg::EcdsaSha512 => PkSource::CsrIssue,
 		_ => PkSource::KeyPair,
 	};
 	CertCase {
@@ -831,7 +859,7 @@ pub fn gen_case<'a>(w: &Workload<'a>, workload: &str, seed: u64, index: u64) -> 
 		// every pool key as subject and as issuer with the three public-key sources
 		"keys" => {
 			let n = w.pool.len() as u64;
-			if index >= n * 4 {
+			if index >= n * 5 {
 				return None;
 			}
 			let k = &w.pool[(index % n) as usize];
@@ -842,6 +870,10 @@ pub fn gen_case<'a>(w: &Workload<'a>, workload: &str, seed: u64, index: u64) -> 
 				0 => (None, PkSource::KeyPair),
 				1 => (Some(&w.issuers[((index * 7 + 3) % w.issuers.len() as u64) as usize]), PkSource::KeyPair),
 				2 => (Some(&w.issuers[((index * 5 + 1) % w.issuers.len() as u64) as usize]), PkSource::Spki),
+				4 => (
+					Some(&w.issuers[((index * 11 + 4) % w.issuers.len() as u64) as usize]),
+					if k.is_remote() || k.sig == SigAlg::EcdsaSha512 { PkSource::KeyPair } else { PkSource::CsrIssue },
+				),
 				_ => (
 					Some(&w.issuers[((index * 3 + 2) % w.issuers.len() as u64) as usize]),
 					if k.is_remote() || k.sig == SigAlg::EcdsaSha512 { PkSource::Spki } else { PkSource::Csr },
